@@ -8,7 +8,7 @@ From BVA Require Import Proofs.Edit Proofs.Slice Proofs.Shift Proofs.Rot.
 (* Value-level (bvx) theorems for the editing operations of Model/Auto.v: constructors, get/set,
    push/pop/resize, reserve/shrink, copy_range/split_off, shifts, rotations, Extend/FromIterator. *)
 
-Definition kind_ok (k : kind) : Prop := match k with KF w n => std_width w /\ 0 < n | _ => True end.
+Definition kind_ok (k : kind) : Prop := match k with KF w n => std_width w /\ 0 <= n | _ => True end.
 
 (* ------------------------------------------------------------------ infrastructure *)
 
